@@ -394,6 +394,13 @@ pub fn reduced(shape: &Shape) -> Vec<Value> {
 				}
 			}
 			out.dedup();
+			if out.is_empty() {
+				// every variant is skipped: the only values there are have no encoding
+				if let Some(var) = vs.first() {
+					let t: Vec<Value> = var.fields.iter().map(|f| field_reduced(f, 1)[0].clone()).collect();
+					out.push(Value::Variant(0, t));
+				}
+			}
 			out
 		},
 	}
